@@ -141,3 +141,13 @@ fn format_stmt(
     };
     result.map(|res| recover_comment_removed(res, stmt.span(), context))
 }
+
+#[cfg(feature = "verif-hooks")]
+pub(crate) mod verif_local {
+    use super::*;
+
+    /// `Stmt::is_last_expr`.
+    pub(crate) fn is_last_expr(stmt: &Stmt<'_>) -> bool {
+        stmt.is_last_expr()
+    }
+}
